@@ -117,6 +117,25 @@ def typed_requests_mir(ctx):
                 d1 = r.mem[("h", "d")]
                 off1 = d1.fields[1]
                 got_word = any(ev[0] == "dec" and ev[1] == "word" and ev[2] == "ok" for ev in r.events)
+                # the decoder afterwards is exactly what the one word request left: the offset moved by the word consumed (if any)
+                # and the limit was charged for it — a typed request never gives words back or extends the limit
+                lim1 = d1.fields[2]
+                wev = [ev for ev in r.events if ev[0] == "dec" and ev[1] == "word"]
+                # word()'s contract (k_dec_word): a refused request (limit used up) changes nothing; a request that finds no word in
+                # the stream has still been charged to the limit; a served one moves the offset by one word
+                dec = 1 if (wev and wev[-1][2] in ("ok", "stream")) else 0
+                adv = 1 if got_word else 0
+                if lim is None:
+                    state_c = z3.BoolVal(not (isinstance(lim1, sym.Adt) and lim1.variant == "None"))
+                elif isinstance(lim1, sym.Adt) and lim1.variant == "Some" and z3.is_expr(lim1.fields[0]):
+                    state_c = lim1.fields[0] != lim - dec
+                else:
+                    state_c = z3.BoolVal(True)
+                state_c = z3.Or(state_c, off1 != off + 4 * adv)
+                st, mdl = q.check(list(r.pc) + [state_c], "typed-request-state")
+                if st == "sat":
+                    bad = ("leaves the decoder in a state other than the one its word request produced (offset / remaining limit)", mdl)
+                    break
                 v = r.value
                 if v.variant == "Ok":
                     x = v.fields[0]
@@ -153,6 +172,13 @@ def typed_requests_mir(ctx):
             if rp is None:
                 rp = Replay()
             real = rp.ask("typed_request %s %d" % (meth, w))
+            if what.startswith("leaves the decoder"):
+                real_l = rp.ask("typed_request_at_limit %s %d" % (meth, w))
+                if "panic" in real_l or ("error" not in real_l and (real_l.get("first_ok") or real_l.get("next_word_ok") or real_l.get("offset_after_first") != 0)):
+                    ctx.ob(tag, False, "%s; native: %s" % (what, real_l))
+                    ctx.violation("typed-request/%s/state" % meth, "Decoder::%s with the limit used up (set_limit(0)) %s: afterwards %s — a raw word request must still be refused at offset 0" % (meth, what, real_l),
+                                  {"cmd": "typed_request_at_limit %s %d" % (meth, w), "real": real_l})
+                    break
             if what.startswith("panics") and "panic" not in real:
                 # a panic edge that needs the underlying word request to FAIL: the same request on an empty buffer
                 real_e = rp.ask("typed_request %s %d empty" % (meth, w))
